@@ -146,6 +146,39 @@ def detect(i, tier='quick', props=None):
         json.dump(fresh, open(d + '/meta.json', 'w'), indent=1)
 
 
+def detect_scratch(i, tier='quick', props=None):
+    """Like detect, but against a scratch worktree of /repo HEAD (VERIF_REPO) with scratch evidence and
+    replay directories: usable while something else is running against /repo. The result is recorded
+    under detection_scratch; the recorded detection is still made with detect (git -C /repo apply)."""
+    d = '%s/%s' % (ROOT, i)
+    meta = json.load(open(d + '/meta.json'))
+    wt = tempfile.mkdtemp(prefix='det.', dir='/tmp')
+    os.rmdir(wt)
+    rc, out = sh('git -C /repo worktree add -q --detach %s HEAD && git -C %s apply %s/patch.diff' % (wt, wt, d))
+    if rc != 0:
+        print(i, 'cannot prepare scratch worktree', out)
+        return
+    det = {}
+    try:
+        for p in props or [meta['property']]:
+            t0 = time.time()
+            rc, out = sh('VERIF_REPO=%s VERIF_EVIDENCE_DIR=%s/.ev VERIF_REPLAY_DIR=%s/.rp ./check %s %s' % (wt, wt, wt, p, tier), cwd='/verif', timeout=7200)
+            vio = [l for l in out.split('\n') if l.startswith('VIOLATION')]
+            rules = sorted(set(l.strip()[:200] for l in out.split('\n') if l.startswith('  rule=')))
+            det['%s %s' % (p, tier)] = {'exit': rc, 'violations': len(vio), 'first': (rules[:3] if rules else out[-300:]), 'seconds': int(time.time() - t0)}
+            print(i, p, tier, 'exit', rc, 'violations', len(vio), int(time.time() - t0), 's (scratch)')
+            for r in rules[:3]:
+                print('    ', r[:240])
+            if rc not in (0, 1):
+                print(out[-1500:])
+    finally:
+        sh('git -C /repo worktree remove --force %s' % wt)
+        shutil.rmtree(wt, ignore_errors=True)
+        fresh = json.load(open(d + '/meta.json'))
+        fresh.setdefault('detection_scratch', {}).update(det)
+        json.dump(fresh, open(d + '/meta.json', 'w'), indent=1)
+
+
 def table():
     print('| id | property | change | needs | confirmed | detected by (quick) |')
     print('|---|---|---|---|---|---|')
@@ -165,5 +198,8 @@ if __name__ == '__main__':
     elif cmd == 'detect':
         for i in ids(sys.argv[2]):
             detect(i, sys.argv[3] if len(sys.argv) > 3 else 'quick', sys.argv[4:] or None)
+    elif cmd == 'detect-scratch':
+        for i in ids(sys.argv[2]):
+            detect_scratch(i, sys.argv[3] if len(sys.argv) > 3 else 'quick', sys.argv[4:] or None)
     elif cmd == 'table':
         table()
